@@ -292,6 +292,10 @@ var Mutants = map[string][]Mutant{
 		{"vertical fonts written as horizontal", "renderers/pdf/writer.go", `w\.writeFonts\(w\.fontsV, true\)`, `w.writeFonts(w.fontsV, false)`, "E5.fontmaps"},
 	},
 	"C19": {
+		{"percentages relative to the pixel size under a viewBox", "svg.go", `svg\.width, svg\.height = viewbox\[2\], viewbox\[3\]`, "svg.width, svg.height = width*96.0/25.4, height*96.0/25.4", "E11.percent-reference"},
+		{"selector matcher starts at the root element", "svg.go", `return sels\.appliesAt\(len\(sels\)-1, elems, len\(elems\)-1\)`, "return sels.appliesAt(len(sels)-1, elems, 0)", "E11.selector-subject"},
+		{"arcs join installs the predefined joiner", "svg.go", `svg\.ctx\.SetStrokeJoiner\(ArcsJoiner\{BevelJoin, svg\.state\.strokeMiterLimit\}\)`, "svg.ctx.SetStrokeJoiner(ArcsJoin)", "E11.svg-miterlimit-carried"},
+		{"stroke-miterlimit patches miter joins only", "svg.go", `(?s) else if arcs, ok := svg\.ctx\.StrokeJoiner\.\(ArcsJoiner\); ok \{\n\t\t\tarcs\.Limit = svg\.state\.strokeMiterLimit\n\t\t\tsvg\.ctx\.SetStrokeJoiner\(arcs\)\n\t\t\}`, "", "E11.svg-miterlimit-carried"},
 		{"explicit miter join installs the predefined joiner", "svg.go", `svg\.ctx\.SetStrokeJoiner\(MiterJoiner\{BevelJoin, svg\.state\.strokeMiterLimit\}\)`, "svg.ctx.SetStrokeJoiner(MiterJoin)", "E11.svg-miterlimit-carried"},
 		{"importer without the hash-token branch", "svg.go", `(?s)\} else if t\.TokenType == css\.HashToken \{.*?\n\t\t\t\t\} else if`, "} else if", "E11.selector-hash"},
 		{"id selector keeps the leading #", "svg.go", `attr: "id", val: string\(t\.Data\[1:\]\)`, `attr: "id", val: string(t.Data)`, "E11.selector-hash"},
